@@ -277,6 +277,16 @@ var c17Carriers = []func(e gen.Expr) gen.Node{
 	func(e gen.Expr) gen.Node {
 		return pr(&gen.EGroup{X: &gen.EHash{Keys: []gen.Expr{str("a"), str("b")}, Vals: []gen.Expr{e, num(2)}}})
 	},
+	// a computed hash key (the value of the same pair is fine), first and second pair, and inside an interpolated key
+	func(e gen.Expr) gen.Node {
+		return pr(&gen.EGroup{X: &gen.EHash{Keys: []gen.Expr{&gen.EGroup{X: e}, str("b")}, Vals: []gen.Expr{num(1), num(2)}}})
+	},
+	func(e gen.Expr) gen.Node {
+		return pr(&gen.EGroup{X: &gen.EHash{Keys: []gen.Expr{str("a"), &gen.EGroup{X: e}}, Vals: []gen.Expr{num(1), num(2)}}})
+	},
+	func(e gen.Expr) gen.Node {
+		return &gen.NSet{Name: "errh", X: &gen.EHash{Keys: []gen.Expr{&gen.EInterp{Parts: []gen.Expr{&gen.EStr{S: "k"}, e}}}, Vals: []gen.Expr{str("v")}}}
+	},
 	func(e gen.Expr) gen.Node { return pr(&gen.EBin{Op: "~", L: e, R: str("x")}) },
 	func(e gen.Expr) gen.Node { return pr(&gen.EBin{Op: "~", L: str("x"), R: e}) },
 	func(e gen.Expr) gen.Node { return pr(&gen.EBin{Op: "and", L: &gen.EBool{V: false}, R: e}) },
@@ -332,6 +342,13 @@ var c17Errors = []func() gen.Node{
 	func() gen.Node { return &gen.NPrint{X: &gen.EBin{Op: "matches", L: num(1), R: str("(")}} },
 	func() gen.Node { return &gen.NFilter{Filters: []string{"nofilter"}, Body: []gen.Node{tx("x")}} },
 	func() gen.Node { return &gen.NPrint{X: &gen.EBin{Op: "%", L: num(1), R: num(0)}} },
+	// a loop over something that is no sequence, with an else branch that must not stand in for the error
+	func() gen.Node {
+		return &gen.NFor{Val: "ev", Seq: num(5), Body: []gen.Node{tx("t")}, HasElse: true, Else: []gen.Node{tx("e")}}
+	},
+	func() gen.Node {
+		return &gen.NFor{Val: "ev", Seq: str("text"), Body: []gen.Node{tx("t")}, HasElse: true, Else: []gen.Node{tx("e")}}
+	},
 }
 
 func (p *c17) Run(i int) (res fw.Result) {
@@ -508,7 +525,7 @@ func (p *c17) Run(i int) (res fw.Result) {
 }
 
 func (p *c17) Rule() string {
-	return "per template (20 hand-written ones covering every construct that writes: text, print, filter sections incl. nested and last-in-template, loops, include, embed, set-capture, macros, block(), if, import/from, verbatim, for-else; two inheritance chains with parent(); plus seeded programs from the generator: 300 quick / 3000 thorough): fault-free Execute and ExecuteSafe first (ExecuteSafe must deliver byte-identical output, or nothing if rendering fails), then EVERY fault point: (a) the destination writer failing at its k-th Write for every k=1..W, once rejecting the whole write, once accepting half of it and once accepting all of it but reporting an error; ExecuteSafe with a failing destination (3 modes) followed by successful ExecuteSafe calls on the same and on a fresh environment, which must deliver exactly their own output; (b) the loader failing at its k-th Load for every k=1..L, once with an error and once by returning a syntactically broken template, through Execute and ExecuteSafe; (c) for generated programs a failing construct inserted at every node boundary - either a whole statement (unknown function, missing include, invalid regular expression, unknown filter section, modulo by zero) or one of 4 failing sub-expressions carried in one of 31 expression positions (first / middle / last argument of a function, filter, test, method or imported macro, array and hash elements, either operand, conditional parts, attribute key, interpolation, set value, if/elseif condition, loop sequence and condition, include name and with-hash, inside captures and filter sections) - of the main template's structure tree, nested bodies included, with a recorded marker call in front of it telling whether it was executed. Oracles: non-nil error, accepted bytes are a prefix of the fault-free output, no Write after a failed Write, ExecuteSafe made no Write at all on failure. Non-trivial = template with >=2 writes; distinct = template."
+	return "per template (20 hand-written ones covering every construct that writes: text, print, filter sections incl. nested and last-in-template, loops, include, embed, set-capture, macros, block(), if, import/from, verbatim, for-else; two inheritance chains with parent(); plus seeded programs from the generator: 300 quick / 3000 thorough): fault-free Execute and ExecuteSafe first (ExecuteSafe must deliver byte-identical output, or nothing if rendering fails), then EVERY fault point: (a) the destination writer failing at its k-th Write for every k=1..W, once rejecting the whole write, once accepting half of it and once accepting all of it but reporting an error; ExecuteSafe with a failing destination (3 modes) followed by successful ExecuteSafe calls on the same and on a fresh environment, which must deliver exactly their own output; (b) the loader failing at its k-th Load for every k=1..L, once with an error and once by returning a syntactically broken template, through Execute and ExecuteSafe; (c) for generated programs a failing construct inserted at every node boundary - either a whole statement (unknown function, missing include, invalid regular expression, unknown filter section, modulo by zero, a loop with an else branch over a number / a string) or one of 4 failing sub-expressions carried in one of 34 expression positions (first / middle / last argument of a function, filter, test, method or imported macro, array and hash elements, computed and interpolated hash keys, either operand, conditional parts, attribute key, interpolation, set value, if/elseif condition, loop sequence and condition, include name and with-hash, inside captures and filter sections) - of the main template's structure tree, nested bodies included, with a recorded marker call in front of it telling whether it was executed. Oracles: non-nil error, accepted bytes are a prefix of the fault-free output, no Write after a failed Write, ExecuteSafe made no Write at all on failure. Non-trivial = template with >=2 writes; distinct = template."
 }
 
 func (p *c17) Assumptions() []string {
